@@ -165,6 +165,9 @@ impl<'a, P, T> IntoIterator for &'a PrefixMap<P, T> {
 pub struct IterMut<'a, P, T> {
     table: Option<&'a Table<P, T>>,
     nodes: Vec<usize>,
+    // The struct hands out `&'a mut` references to values. Make the auto traits (`Send`) behave as
+    // for `&'a mut` references, rather than as for the shared reference to the table.
+    _marker: std::marker::PhantomData<&'a mut T>,
 }
 
 impl<P, T> Default for IterMut<'_, P, T> {
@@ -172,6 +175,7 @@ impl<P, T> Default for IterMut<'_, P, T> {
         Self {
             table: None,
             nodes: Vec::new(),
+            _marker: std::marker::PhantomData,
         }
     }
 }
@@ -188,6 +192,7 @@ impl<'a, P, T> IterMut<'a, P, T> {
         Self {
             table: Some(table),
             nodes,
+            _marker: std::marker::PhantomData,
         }
     }
 }
@@ -449,6 +454,7 @@ where
         IterMut {
             table: Some(&self.table),
             nodes,
+            _marker: std::marker::PhantomData,
         }
     }
 
